@@ -162,9 +162,17 @@ impl Interval {
     #[verifier::external_body]
     fn tick(&mut self) { unimplemented!() }
 }
+/// what a socket can be bound to: a "host:port" text or a socket address
+pub trait BindAddr { spec fn text(&self) -> Seq<char>; }
+impl BindAddr for String { open spec fn text(&self) -> Seq<char> { self@ } }
+impl BindAddr for SocketAddrV4 { uninterp spec fn text(&self) -> Seq<char>; }
 impl UdpSocket {
+    /// the address text the socket was bound to
+    pub uninterp spec fn bound(&self) -> Seq<char>;
     #[verifier::external_body]
-    fn bind<A>(addr: A) -> (r: Result<UdpSocket, IoError>) { unimplemented!() }
+    fn bind<A: BindAddr>(addr: A) -> (r: Result<UdpSocket, IoError>)
+        ensures r matches Ok(s) ==> s.bound() == addr.text()
+    { unimplemented!() }
 }
 impl core::convert::From<IoError> for anyhow::Error {
     #[verifier::external_body]
@@ -306,7 +314,12 @@ fn startup_udp<const N: usize>(config: &ServerConfig<SslConfig>, user_manager: &
         }
         let context = udp__Context::new(Mode::Server, Some(user_manager.clone()), &key, &identity_keys);
         let codec = new_codec::<N>(config, context)?;
-        let inbound = UdpSocket::bind(verif_string())?;
+        let inbound = UdpSocket::bind(verif_host_port(&(config.host), config.port))?;
+        proof {
+            //#C16
+            // the UDP service listens on the configured host and port
+            assert(inbound.bound() == host_port(config.host@, config.port));
+        }
         let (tx, mut rx) = mpsc::channel::<(BytesMut, Address, SocketAddr, udp__Session<N>)>(1024);
         let ttl = Duration::from_secs(300);
         // a 2022 session is named by its client session id; the original AEAD ciphers carry no session id on the wire: there a client is its address
